@@ -192,6 +192,11 @@ def op_mkfield(st, o):
     dt = o.get("dtype")
     if dt == "int":
         arr = np.rint(np.clip(arr, -1e9, 1e9)).astype(np.int64)
+        if o.get("bigint"):
+            # integers that no float64 can hold: "values bit-identical" includes them
+            flat = arr.reshape(-1)
+            flat[::5] = 2**53 + 1 + 2 * np.arange(len(flat[::5]), dtype=np.int64)
+            flat[1::7] = -(2**62) + 3
     elif dt == "complex":
         r = np.random.default_rng(o["value"].get("seed", 1) + 5)
         arr = arr.astype(np.complex128) + 1j * r.integers(-9, 10, size=arr.shape)
@@ -585,6 +590,11 @@ def check_read_hdf5(st, g, pm):
         w = fsh.array.astype(got.dtype) if got.dtype.kind == fsh.array.dtype.kind or fsh.array.dtype.kind in "iu" else fsh.array
         if got.dtype.kind in "fc" and fsh.array.dtype.kind in "fc":
             same = got.tobytes() == np.ascontiguousarray(fsh.array).astype(got.dtype).tobytes()
+        elif got.dtype.kind == "f" and fsh.array.dtype.kind in "iu":
+            # an integer field may come back with another dtype (adopted), but with the same VALUES:
+            # compared as integers, never through a rounding conversion of the written values
+            with np.errstate(all="ignore"):
+                same = bool(np.all(np.isfinite(got)) and np.all(np.abs(got) < 2.0**63) and np.array_equal(got.astype(np.int64), fsh.array))
         else:
             same = np.array_equal(got, fsh.array)
         if not same:
